@@ -767,9 +767,17 @@ func (t *Tokenizer) readIdentifier() (models.Token, error) {
 	if isCompoundKeywordStart(upperIdent) {
 		// Save current position
 		savePos := t.pos.Clone()
+		saveComments := len(t.Comments)
 
-		// Skip whitespace
+		// Skip whitespace and comments: both only separate the two words, so
+		// the merged token must not depend on which of them was written.
 		t.skipWhitespace()
+		for t.atCommentStart() {
+			if tok, err := t.readPunctuation(); err != nil || tok.Type != commentSkipped.Type {
+				break
+			}
+			t.skipWhitespace()
+		}
 
 		if t.pos.Index < len(t.input) {
 			// Try to read the next word
@@ -803,8 +811,10 @@ func (t *Tokenizer) readIdentifier() (models.Token, error) {
 			}
 		}
 
-		// Not a compound keyword, restore position
+		// Not a compound keyword, restore position (and forget the comments
+		// looked over: the main loop captures them again)
 		t.pos = savePos
+		t.Comments = t.Comments[:saveComments]
 	}
 
 	return models.Token{
@@ -812,6 +822,15 @@ func (t *Tokenizer) readIdentifier() (models.Token, error) {
 		Word:  word,
 		Value: ident,
 	}, nil
+}
+
+// atCommentStart reports whether the input at the cursor opens a line or block comment.
+func (t *Tokenizer) atCommentStart() bool {
+	i := t.pos.Index
+	if i+1 >= len(t.input) {
+		return false
+	}
+	return (t.input[i] == '-' && t.input[i+1] == '-') || (t.input[i] == '/' && t.input[i+1] == '*')
 }
 
 // compoundKeywordStarts is a set of keywords that can start compound keywords
